@@ -526,9 +526,9 @@ const rule = "Swagger 2.0 descriptions (base path, global and per-operation cons
 // Props lists the generated checks of C19.
 func Props() []kit.Runner {
 	return []kit.Runner{
-		kit.Prop[Case]{ID: "C19", Name: "validate", Rule: rule, Quick: 3000, Thorough: 20000,
+		kit.Prop[Case]{ID: "C19", Name: "validate", Rule: rule, Quick: 3000, Thorough: 10000,
 			Gen: GenEdits, Check: Check, Classify: Classify, SampleLimit: 1200},
-		kit.Prop[Case]{ID: "C19", Name: "serve", Rule: rule + "; this sub-check draws only restricted-class descriptions with coinciding registrations (harmless spelling variations), biased to several media types per operation", Quick: 1500, Thorough: 8000,
+		kit.Prop[Case]{ID: "C19", Name: "serve", Rule: rule + "; this sub-check draws only restricted-class descriptions with coinciding registrations (harmless spelling variations), biased to several media types per operation", Quick: 1200, Thorough: 4000,
 			Gen: GenServe, Check: Check, Classify: Classify, SampleLimit: 1200},
 	}
 }
